@@ -20,7 +20,7 @@ def micro(x: float) -> int:
 
 
 def validate(ctx: Ctx, module: str, cfg: str, traces: List[List[dict]], *, label: str = "trace",
-             max_retries: int = 12, timeout: int = 1800) -> Tuple[Dict[int, Any], int]:
+             max_retries: int = 12, timeout: int = 1800, all_rejections: bool = False) -> Tuple[Dict[int, Any], int]:
     """Run the trace spec over `traces` (each a list of events, first event 'start').
 
     Returns ({tid: (line, clause)} for rejected traces, number of traces actually validated).
@@ -51,7 +51,10 @@ def validate(ctx: Ctx, module: str, cfg: str, traces: List[List[dict]], *, label
                 if not rep:
                     raise MachineryError(f"{module}: trace validation produced no report")
                 for r in rep[-1]["rejected"]:
-                    rej[int(r[0])] = (int(r[1]), r[2])
+                    if all_rejections:
+                        rej.setdefault(int(r[0]), []).append((int(r[1]), r[2]))
+                    else:
+                        rej[int(r[0])] = (int(r[1]), r[2])
                 if rep[-1]["lines"] != len(line_tid):
                     raise MachineryError(f"{module}: trace spec consumed {rep[-1]['lines']} of {len(line_tid)} lines")
                 ctx.notes.setdefault("traces_dropped_for_overflow", 0)
